@@ -18,7 +18,7 @@ func main() {
 	if hold := os.Getenv("VERIF_STUB_HOLD"); hold != "" {
 		pid := strconv.Itoa(os.Getpid())
 		os.WriteFile(hold+"/wait."+pid, nil, 0o666)
-		for i := 0; i < 150000; i++ {
+		for i := 0; i < 900000; i++ { // up to 3 minutes
 			if _, err := os.Stat(hold + "/go." + pid); err == nil {
 				break
 			}
